@@ -19,10 +19,10 @@ func bi(s string) *big.Int {
 
 // WCurve is y^2 = x^3 + A x + B over F_P with a subgroup of prime order N.
 type WCurve struct {
-	Name   string
+	Name    string
 	P, A, B *big.Int
-	N      *big.Int // order of the subgroup the protocols compute in
-	Gx, Gy *big.Int
+	N       *big.Int // order of the subgroup the protocols compute in
+	Gx, Gy  *big.Int
 }
 
 // WPoint is an affine point; Inf marks the identity.
